@@ -1,0 +1,22 @@
+//go:build verif
+
+package optimistic
+
+import (
+	"github.com/agglayer/aggkit/log"
+	signertypes "github.com/agglayer/go_signer/signer/types"
+)
+
+// NewVerifOptimisticSignatureCalculator builds the real optimistic signature calculator over an injected
+// public-values querier and signer (the production constructor needs an L1 contract and an op-node URL).
+func NewVerifOptimisticSignatureCalculator(
+	logger *log.Logger,
+	query OptimisticAggregationProofPublicValuesQuerier,
+	signer signertypes.HashSigner,
+) *OptimisticSignatureCalculatorImpl {
+	return &OptimisticSignatureCalculatorImpl{
+		queryAggregationProofPublicValues: query,
+		signer:                            signer,
+		logger:                            logger,
+	}
+}
